@@ -172,8 +172,11 @@ static carquet_status_t flush_current_page(carquet_column_writer_internal_t* wri
     }
 
     /* Update statistics */
-    writer->total_uncompressed_size += uncompressed_size;
-    writer->total_compressed_size += compressed_size;
+    /* Both chunk totals include the page headers (parquet.thrift, ColumnMetaData):
+     * page_size = header + compressed body */
+    size_t header_size = page_size - (size_t)compressed_size;
+    writer->total_uncompressed_size += (int64_t)header_size + uncompressed_size;
+    writer->total_compressed_size += (int64_t)page_size;
     writer->num_pages++;
 
     /* Reset page writer for next page */
